@@ -83,6 +83,18 @@ run('A1 jsonpickle round trip on the faithful domain is structurally equal, new 
 run('A1 decode allocates fresh containers', st.one_of(st.lists(scalars, min_size=1, max_size=4), st.dictionaries(keys, scalars, min_size=1, max_size=4)), a1_fresh)
 run('A1 encodings of lists are prefix-free', st.tuples(st.lists(faithful, max_size=3), st.lists(faithful, max_size=3)), a1_list_prefix_free)
 run('A1 name-sorted item lists encode independently of insertion order', st.dictionaries(keys, scalars, max_size=5), a1_sorted_items)
+def a1_shared(p):
+    """sharing inside the faithful domain as narrowed by the known finding C07-shared-reference-after-object: containers and scalars only
+    (no object that jsonpickle encodes through py/state precedes the second reference): the decoded graph is structurally equal"""
+    shared, other = p
+    v = {'a': other, 'b': {'s1': shared, 's2': shared}, 'c': [shared, other]}
+    d = jsonpickle.decode(jsonpickle.encode(v, unpicklable=True))
+    assert d == v, (v, d)          # structural equality is what A1 claims; whether the copy shares the sub-object again is not claimed
+
+
+plain_tree = st.recursive(scalars, lambda c: st.one_of(st.lists(c, max_size=3), st.dictionaries(keys, c, max_size=3)), max_leaves=8)
+run('A1 shared sub-objects among containers round-trip structurally (no state-carrying object before the second reference)',
+    st.tuples(st.one_of(st.lists(scalars, max_size=3), st.dictionaries(keys, scalars, max_size=3)), plain_tree), a1_shared)
 run('A2 zlib and utf-8 are inverse', st.text(max_size=200), lambda s: (zlib.decompress(zlib.compress(s.encode('utf-8'))).decode('utf-8') == s) or (_ for _ in ()).throw(AssertionError(s)))
 
 
